@@ -1,13 +1,15 @@
 #!/bin/bash
 # Developer helper (not a registered check): run every quick check against each seeded change in /verif/seeded
-# (scratch worktree of /repo HEAD + patch, outside /repo and /verif; removed afterwards). usage: tools/seed_check.sh [id ...]
+# (scratch worktree of /repo HEAD + patch, outside /repo and /verif; removed afterwards), JOBS at a time.
+# usage: tools/seed_check.sh [id ...]
 cd /verif
 IDS="$@"; [ -z "$IDS" ] && IDS=$(ls seeded)
-for ID in $IDS; do
+one() {
+  ID=$1
   V=/tmp/wt/seedchk-$ID
   git -C /repo worktree remove --force $V >/dev/null 2>&1
-  git -C /repo worktree add --detach $V HEAD >/dev/null 2>&1 || { echo "$ID: cannot create worktree"; continue; }
-  if ! git -C $V apply /verif/seeded/$ID/patch.diff 2>/dev/null; then echo "$ID: PATCH DOES NOT APPLY TO HEAD"; git -C /repo worktree remove --force $V; continue; fi
+  git -C /repo worktree add --detach $V HEAD >/dev/null 2>&1 || { echo "$ID: cannot create worktree"; return; }
+  if ! git -C $V apply /verif/seeded/$ID/patch.diff 2>/dev/null; then echo "$ID: PATCH DOES NOT APPLY TO HEAD"; git -C /repo worktree remove --force $V; return; fi
   OUT=$(SGZ_REPO=$V SGZ_EVIDENCE_DIR=/tmp/ev-$ID ./check all --tier quick 2>&1)
   V1=$(echo "$OUT" | grep -E "^VIOLATION" | sed -E 's/.*property=(C[0-9]+).*/\1/' | sort -u | tr '\n' ' ')
   R1=$(echo "$OUT" | grep -E "^FINDING" | awk '{print $2}' | sort -u | tr '\n' ' ')
@@ -16,4 +18,7 @@ for ID in $IDS; do
   [ -n "$VERBOSE" ] && echo "$OUT" | grep -E "^(FINDING|ANALYSIS-ERROR)" | cut -c1-400
   rm -rf /tmp/ev-$ID
   git -C /repo worktree remove --force $V >/dev/null 2>&1
-done
+}
+export -f one
+# worktree creation is serialised by git's own lock; the analysis runs in parallel
+echo $IDS | tr ' ' '\n' | xargs -P ${JOBS:-8} -I{} bash -c 'one {}' 2>/dev/null | sort
